@@ -11,10 +11,12 @@ Definition proxy (id name dest : string) (ups : list string) : svcreq := SvcReq 
 Definition plain (id name : string) : svcreq := SvcReq id name KTypical false "" 80 [] true 0.
 Definition native (id name : string) : svcreq := SvcReq id name KTypical true "" 80 [] true 0.
 
-(* ---- virtual IPs: a sidecar proxy outlives its service's assignment ---- *)
+(* ---- virtual IPs: the history on which a sidecar proxy used to outlive its service's assignment ---- *)
 (* the proxy of "web" is registered (web gets address 1 and the proxy advertises it); a
-   service-defaults entry for web is written and deleted again: the deletion frees web's address
-   although the proxy still advertises it; the next connect service, "db", is given address 1 too *)
+   service-defaults entry for web is written and deleted again.  Before /repo 8e1bd1c the deletion
+   freed web's address although the proxy still advertised it, and the next connect service, "db",
+   was given address 1 too.  Now web keeps address 1 and db gets 2 (kept as a regression case: the
+   harness corpus replays it on the real store on every run). *)
 Definition vip_log : list (N * cmd) :=
   [ (2, SysMeta true);
     (3, Register "n1" "" 1 false (Some (proxy "s1" "web-proxy" "web" [])) []);
@@ -22,12 +24,12 @@ Definition vip_log : list (N * cmd) :=
     (5, ConfDelete "service-defaults" "web");
     (6, Register "n1" "" 1 false (Some (native "s2" "db")) []) ].
 
-Lemma vip_advertised_witness :
+Lemma vip_repaired_example :
   let s := (run vip_log st0).1 in
   (exists v, services s !! ("n1", "s1") = Some v /\ sv_vip v = Some 1 /\ connect_name v = Some "web") /\
-  vips s !! "web" = None /\
-  (exists v, services s !! ("n1", "s2") = Some v /\ sv_vip v = Some 1 /\ connect_name v = Some "db") /\
-  vips s !! "db" = Some (1, []).
+  vips s !! "web" = Some (1, []) /\
+  (exists v, services s !! ("n1", "s2") = Some v /\ sv_vip v = Some 2 /\ connect_name v = Some "db") /\
+  vips s !! "db" = Some (2, []).
 Proof.
   cbv zeta. split; [|split; [|split]].
   - eexists. split; [vm_compute; reflexivity|]. split; vm_compute; reflexivity.
@@ -59,25 +61,60 @@ Lemma kindnames_witness2 :
   let s := (run ksn_log2 st0).1 in ksn s ≠ recompute_ksn s.
 Proof. cbv zeta. eapply bool_decide_eq_false_1. vm_compute. reflexivity. Qed.
 
-(* ---- mesh-topology: two proxy instances declare the same upstream ---- *)
+(* ---- mesh-topology ---- *)
+(* two proxy instances declare the same upstream; the second is deregistered.  Before /repo acb191c
+   the row kept only the latest instance as its reference and disappeared with it; now it agrees with
+   the recomputation after every step (regression case, replayed by the harness corpus). *)
 Definition topo_log : list (N * cmd) :=
   [ (3, Register "n1" "" 1 false (Some (proxy "s1" "web-proxy" "web" ["db"])) []);
     (4, Register "n2" "" 1 false (Some (proxy "s1" "web-proxy" "web" ["db"])) []);
     (5, Deregister "n2" "s1" "") ].
 
+Lemma topology_repaired_example :
+  topo (run (take 2 topo_log) st0).1 !! ("db", "web") = Some {[ ("n1", "s1"); ("n2", "s1") ]} /\
+  topo (run (take 2 topo_log) st0).1 = recompute_topo (run (take 2 topo_log) st0).1 /\
+  topo (run topo_log st0).1 !! ("db", "web") = Some {[ ("n1", "s1") ]} /\
+  topo (run topo_log st0).1 = recompute_topo (run topo_log st0).1.
+Proof. split; [|split; [|split]]; eapply bool_decide_eq_true_1; vm_compute; reflexivity. Qed.
+
+(* STILL FALSE (1): an instance that stops listing an upstream deletes the pair although another
+   instance still declares it (updateMeshTopology: DeleteAll by (upstream, downstream)) *)
+Definition topo_drop_log : list (N * cmd) :=
+  [ (3, Register "n1" "" 1 false (Some (proxy "s1" "web-proxy" "web" ["db"])) []);
+    (4, Register "n2" "" 1 false (Some (proxy "s1" "web-proxy" "web" ["db"])) []);
+    (5, Register "n2" "" 1 false (Some (proxy "s1" "web-proxy" "web" [])) []) ].
+
 Lemma topology_witness :
-  (* after the second registration the row has lost the first instance ... *)
-  topo (run (take 2 topo_log) st0).1 !! ("db", "web") = Some {[ ("n2", "s1") ]} /\
-  topo (run (take 2 topo_log) st0).1 ≠ recompute_topo (run (take 2 topo_log) st0).1 /\
-  (* ... so removing the second instance removes the pair although n1's proxy still declares it *)
-  topo (run topo_log st0).1 !! ("db", "web") = None /\
-  recompute_topo (run topo_log st0).1 !! ("db", "web") = Some {[ ("n1", "s1") ]}.
+  topo (run topo_drop_log st0).1 !! ("db", "web") = None /\
+  recompute_topo (run topo_drop_log st0).1 !! ("db", "web") = Some {[ ("n1", "s1") ]}.
+Proof. split; [vm_compute; reflexivity|eapply bool_decide_eq_true_1; vm_compute; reflexivity]. Qed.
+
+(* STILL FALSE (2): an instance re-registered as something that is not a proxy keeps its pairs
+   (updateMeshTopology is only called for proxies and natives; nothing cleans the old rows) *)
+Definition topo_redef_log : list (N * cmd) :=
+  [ (3, Register "n1" "" 1 false (Some (proxy "s1" "web-proxy" "web" ["db"])) []);
+    (4, Register "n1" "" 1 false (Some (plain "s1" "web-proxy")) []) ].
+
+Lemma topology_witness2 :
+  topo (run topo_redef_log st0).1 !! ("db", "web") = Some {[ ("n1", "s1") ]} /\
+  recompute_topo (run topo_redef_log st0).1 !! ("db", "web") = None.
+Proof. split; [eapply bool_decide_eq_true_1; vm_compute; reflexivity|vm_compute; reflexivity]. Qed.
+
+(* STILL FALSE (3): an ingress gateway lists "web" on one listener and "*" on another; when the last
+   connect instance of web goes, cleanupGatewayWildcards removes the wildcard-derived association and
+   with it the (web, igw) pair, although the listed association still implies it *)
+Definition topo_gw_log : list (N * cmd) :=
+  [ (3, ConfSet "igw" (CIngressGW [(8080, ["web"]); (8081, ["*"])]));
+    (4, Register "n1" "" 1 false (Some (native "s1" "web")) []);
+    (5, Deregister "n1" "s1" "") ].
+
+Lemma topology_witness3 :
+  topo (run topo_gw_log st0).1 !! ("web", "igw") = None /\
+  is_Some (gws (run topo_gw_log st0).1 !! ("igw", "web", 8080)) /\
+  recompute_topo (run topo_gw_log st0).1 !! ("web", "igw") = Some ∅.
 Proof.
-  split; [|split; [|split]].
-  - eapply bool_decide_eq_true_1. vm_compute. reflexivity.
-  - eapply bool_decide_eq_false_1. vm_compute. reflexivity.
-  - vm_compute. reflexivity.
-  - eapply bool_decide_eq_true_1. vm_compute. reflexivity.
+  split; [vm_compute; reflexivity|]. split; [eapply bool_decide_eq_true_1; vm_compute; reflexivity|].
+  eapply bool_decide_eq_true_1; vm_compute; reflexivity.
 Qed.
 
 (* ---- gateway-services: a listed service is overwritten by the wildcard of the same entry ---- *)
